@@ -116,7 +116,7 @@ def main(argv=None):
                 print(json.dumps(unknown[0], indent=1, default=str)[:4000])
                 print(f"VIOLATION property={pid} replay={a.replay}")
                 return 1
-        print(f"replay of {a.replay}: property holds on this case")
+        print(f"replay of {a.replay}: " + ("only listed known findings reproduce" if fails else "property holds on this case"))
         return 0
 
     cases = list(mod.cases(a.tier, seed))
